@@ -1416,12 +1416,79 @@ def rv_source_locals(rv):
     return out
 
 
+def rv_source_places(rv):
+    """places read by an rvalue"""
+    out = []
+    k = rv['k']
+
+    def opl(op):
+        pl = op_place(op)
+        if pl is not None:
+            out.append(pl)
+    if k in ('use', 'cast', 'repeat'):
+        opl(rv['op'])
+    elif k in ('ref', 'rawptr', 'discr'):
+        out.append(rv['place'])
+    elif k == 'bin':
+        opl(rv['a'])
+        opl(rv['b'])
+    elif k == 'un':
+        opl(rv['a'])
+    elif k == 'agg':
+        for o in rv['ops']:
+            opl(o)
+    return out
+
+
+def tuple_temps(body):
+    """unnamed locals that are only ever built whole as tuples and only ever read one component at a time
+    (`let (a, b, c) = if .. { (x, Some(y), None) } else { .. };`): flow through them is tracked per component"""
+    cache = body.__dict__.setdefault('_tuple_temps', None)
+    if cache is not None:
+        return cache
+    cand, bad = set(), set()
+    for b in range(body.n):
+        blk = body.blocks[b]
+        for st in blk['stmts']:
+            if st['k'] != 'assign':
+                continue
+            l = st['lhs']
+            if not l['p'] and st['rv'].get('k') == 'agg' and st['rv'].get('agg') == 'tuple' and body.local_name(l['l']) is None:
+                cand.add(l['l'])
+            else:
+                bad.add(l['l'])
+            for pl in rv_source_places(st['rv']):
+                if not (pl['p'] and isinstance(pl['p'][0], dict) and 'f' in pl['p'][0]):
+                    bad.add(pl['l'])
+        t = blk['term']
+        for a in t.get('args', []) or []:
+            pl = op_place(a)
+            if pl is not None and not (pl['p'] and isinstance(pl['p'][0], dict) and 'f' in pl['p'][0]):
+                bad.add(pl['l'])
+        if t['k'] == 'call':
+            bad.add(t['dest']['l'])
+        for key in ('discr', 'cond', 'place'):
+            pl = op_place(t[key]) if key in t and isinstance(t[key], dict) and key != 'place' else (t.get(key) if key == 'place' else None)
+            if isinstance(pl, dict) and 'l' in pl and not (pl.get('p') and isinstance(pl['p'][0], dict) and 'f' in pl['p'][0]):
+                bad.add(pl['l'])
+    res = frozenset(x for x in cand - bad if 1 <= x and x > body.arg_count)
+    body.__dict__['_tuple_temps'] = res
+    return res
+
+
 def forward_flow(body, seeds, through_calls=None, whole_only=False):
     """locals that (may) hold a value derived from the seed locals, following assignments
     (moves, copies, refs, projections, aggregates).  through_calls(callee dict) -> True lets the
     value flow from any argument to the call's destination (adaptors such as as_ref).
     whole_only: a write to a field of / through a local does not make the local itself derived."""
     flow = set(seeds)
+    tt = tuple_temps(body)
+    comp = {}       # tuple temporary -> components that hold a derived value
+
+    def derived(pl):
+        if pl['l'] in tt and pl['l'] not in seeds:
+            return pl['p'][0].get('i', int(pl['p'][0]['f']) if str(pl['p'][0]['f']).isdigit() else -1) in comp.get(pl['l'], ())
+        return pl['l'] in flow
     changed = True
     while changed:
         changed = False
@@ -1433,9 +1500,16 @@ def forward_flow(body, seeds, through_calls=None, whole_only=False):
                 if st['k'] != 'assign':
                     continue
                 tgt = st['lhs']['l']
+                if tgt in tt and tgt not in seeds:
+                    for i_, o in enumerate(st['rv'].get('ops', [])):
+                        pl = op_place(o)
+                        if pl is not None and derived(pl) and i_ not in comp.setdefault(tgt, set()):
+                            comp[tgt].add(i_)
+                            changed = True
+                    continue
                 if tgt in flow or (whole_only and st['lhs']['p']):
                     continue
-                if any(l in flow for l in rv_source_locals(st['rv'])):
+                if any(derived(pl) for pl in rv_source_places(st['rv'])):
                     flow.add(tgt)
                     changed = True
             t = blk['term']
@@ -1443,7 +1517,7 @@ def forward_flow(body, seeds, through_calls=None, whole_only=False):
                 if through_calls(t['callee']):
                     for a in t['args']:
                         pl = op_place(a)
-                        if pl is not None and pl['l'] in flow:
+                        if pl is not None and derived(pl):
                             flow.add(t['dest']['l'])
                             changed = True
                             break
@@ -1911,6 +1985,15 @@ def _thread_try(blocks, d, cont, region):
             if 'move' in payload:
                 payload = {'copy': payload['move']}
             bb['term'] = dict(bb['term'], target=copy_pair(kind, payload), threaded_from=bb['term']['target'])
+    # `inner()?` inside the inlined body: `_d = from_residual(..)` is an Err by construction
+    for bi in list(region):
+        bb = blocks[bi]
+        t2 = bb['term']
+        if bb.get('cleanup') or t2['k'] != 'call' or t2.get('target') is None:
+            continue
+        if 'FromResidual' in (t2['callee'].get('path') or '') and (t2['callee'].get('path') or '').endswith('::from_residual') \
+                and 'std::result::Result' in (t2['callee'].get('path') or '') and t2['dest'] == {'l': d, 'p': []} and reaches_cont(t2['target']):
+            bb['term'] = dict(t2, target=copy_pair('Err', None), threaded_from=t2['target'])
     # when every way into `cont` has been threaded, the generic Try::branch is dead: its definition of `_c` goes away
     preds = 0
     for bj, bb in enumerate(blocks):
